@@ -54,7 +54,13 @@ func (a *Auth) Unpack(r io.Reader) error {
 		return codes.ErrProtocol
 	}
 	a.Properties = &Properties{}
-	return a.Properties.Unpack(bufr, AUTH)
+	if err := a.Properties.Unpack(bufr, AUTH); err != nil {
+		return err
+	}
+	if bufr.Len() != 0 { // bytes left over inside the remaining length
+		return codes.ErrMalformed
+	}
+	return nil
 }
 
 func NewAuthPacket(fh *FixHeader, r io.Reader) (*Auth, error) {
